@@ -4,6 +4,7 @@ mod c02;
 mod c03;
 mod c05;
 mod c06;
+mod c07;
 mod c09;
 mod c11;
 mod c12;
@@ -14,6 +15,11 @@ mod c19;
 mod common;
 
 use std::path::PathBuf;
+
+#[global_allocator]
+static ALLOC: vlib::alloc::Counting = vlib::alloc::Counting;
+
+const SUPERVISED: [&str; 2] = ["C07", "C17"];
 use vlib::run::*;
 
 pub struct PropDef {
@@ -61,6 +67,23 @@ fn registry(id: &str) -> Option<PropDef> {
             level: "exploration",
             subs: vec![random::<c06::Typed>()],
             assumptions: vec!["the 13 x 14 (requested, actual) matrix is covered completely by every generated file; file contents are sampled"],
+        },
+        "C07" => PropDef {
+            level: "exploration",
+            subs: vec![enumerated::<c07::FieldGrid>(), enumerated::<c07::Cuts>(), random::<c07::Mutants>()],
+            assumptions: vec![
+                "harness profile: opt-level 2 with overflow-checks and debug-assertions on for the library and all dependencies",
+                "'runs forever' is decided by an item cap derived from the input size, never by a clock; a watchdog expiry is reported as inconclusive (exit 2)",
+                "libFuzzer campaigns (fuzz/) complement this check in the thorough tier",
+            ],
+        },
+        "C17" => PropDef {
+            level: "exploration",
+            subs: vec![random::<c07::Unbacked>(), enumerated::<c07::AllocGrid>(), random::<c07::AllocMutants>()],
+            assumptions: vec![
+                "memory 'requested' = bytes passed to the global allocator by the thread executing the reader call, net of frees inside the same call",
+                "sources are in-memory cursors over borrowed slices, so the measurement contains only the library's own requests",
+            ],
         },
         "C09" => PropDef {
             level: "exploration",
@@ -145,6 +168,15 @@ fn main() {
         }
         i += 1;
     }
+    if SUPERVISED.contains(&id.as_str()) && std::env::var("VERIF_CHILD").is_err() {
+        // abort- and hang-proof: the real work happens in a supervised child process
+        let code = match &replay {
+            Some(p) => supervise_replay(&id, p),
+            None => supervise(&id, &args[1..], 300),
+        };
+        std::process::exit(code);
+    }
+    inflight::enable_from_env();
     install_panic_hook();
     // self-test of the independent codec against third-party fixtures: an oracle bug must show up as
     // an infrastructure error (exit 2), never as an alarm on the library.
